@@ -324,7 +324,9 @@ class Ctx:
         ev = {"property_id": self.pid, "tier": self.tier, "seed": self.seed, "level": level, "coverage": cov,
               "assumptions": self.assumptions, "wall_s": round(time.time() - self.t0, 1),
               "violations": len(violations)}
-        (EVIDENCE / f"{self.pid}.json").write_text(json.dumps(ev, indent=1, default=str))
+        evdir = EVIDENCE if not self.pid.startswith("X") else EVIDENCE / "extensions"
+        evdir.mkdir(exist_ok=True)
+        (evdir / f"{self.pid}.json").write_text(json.dumps(ev, indent=1, default=str))
         nknown = sum(len(v) for v in known.values()) + (sum(override["known"].values()) if override else 0)
         print(f"{self.pid}: tier={self.tier} seed={self.seed} model states={self.states} "
               f"validated={nres} nontrivial={ndist} violations={len(violations) + (override['more'] if override else 0)} "
